@@ -162,6 +162,61 @@ def selftest():
         r = vf.tlc_trace(e1.MODULE, e1.CFG, bp, wd)
         print(f"selftest e1: deleted handler call rejected={not r['accepted']} at line {r['reject_line']}")
         ok &= not r["accepted"]
+        # the client and the serial tasks: each binding must reject a recording with one field changed or one event removed
+        def probe(name, module, cfg, tp, mutators):
+            good = vf.tlc_trace(module, cfg, tp, wd)
+            lines = open(tp).read().strip().split("\n")
+            print(f"selftest {name}: good trace accepted={good['accepted']} ({len(lines)} events)")
+            allok = good["accepted"]
+            for what, fn in mutators:
+                bad = fn([json.loads(x) for x in lines])
+                bp = os.path.join(wd, name.replace("/", "_").replace(" ", "_") + "-bad.ndjson")
+                open(bp, "w").write("\n".join(json.dumps(x) for x in bad) + "\n")
+                r = vf.tlc_trace(module, cfg, bp, wd)
+                print(f"selftest {name}: {what} rejected={not r['accepted']} at line {r['reject_line']}")
+                allok &= not r["accepted"]
+            return allok
+
+        def change_first(pred, fn):
+            def m(evs):
+                for ev in evs:
+                    if pred(ev):
+                        fn(ev)
+                        break
+                return evs
+            return m
+
+        def drop_first(pred):
+            def m(evs):
+                for i, ev in enumerate(evs):
+                    if pred(ev):
+                        return evs[:i] + evs[i + 1:]
+                return evs
+            return m
+
+        csc = e2.scenario(0, [e2.cmd("enable"), e2.conn("err"), e2.tick(100), e2.conn("ok"), e2.submit(1, 3, 1, 0, 2, (), 50),
+                              e2.reply([3, 4, 0, 7, 0, 8], unit=1), e2.submit(2, 3, 1, 0, 1, (), 50), e2.tick(50)],
+                          mode="task", retry=(100, 400))
+        sp, tp, rc = e2.run_scripts([csc], wd, "selfc")
+        ok &= probe("e2/e3", e2.MODULE, e2.CFG, tp, [
+            ("changed delivered value", change_first(lambda e: e["e"] == "done" and e["class"] == "ok", lambda e: e["values"].__setitem__(0, 9))),
+            ("announced delay changed", change_first(lambda e: e["e"] == "listener" and e["d"] > 0, lambda e: e.__setitem__("d", e["d"] + 1))),
+            ("timeout completion one ms early", change_first(lambda e: e["e"] == "done" and e["class"] == "timeout", lambda e: e.__setitem__("t", e["t"] - 1))),
+            ("connection attempt removed", drop_first(lambda e: e["e"] == "attempt"))])
+        ssc = e2.to_serial([csc])
+        sp, tp, rc = e2.run_scripts(ssc, wd, "selfs")
+        ok &= probe("serial client", e2.MODULE, e2.CFG, tp, [
+            ("open attempt one ms late", change_first(lambda e: e["e"] == "attempt" and e["t"] > 0, lambda e: e.__setitem__("t", e["t"] + 1))),
+            ("Open notification removed", drop_first(lambda e: e["e"] == "listener" and e["state"] == "Open"))])
+        rsc = e1.rtu_task_scenario(0, [1], [{"op": "tick", "d": 100}, {"op": "port", "ok": True}, {"op": "tick", "d": 200},
+                                            e1.rx(mb.rtu(1, mb.req_read(3, 10, 3))), {"op": "eof"}, {"op": "tick", "d": 100}],
+                                   (100, 400), False, seed=7)
+        by = e1.check_rtu_task(vf.Result("selftest", "quick", 0), [rsc], wd, "selfr")
+        ok &= not by
+        ok &= probe("rtu server task", e1.RTU_TASK_MODULE, e1.RTU_TASK_CFG, os.path.join(wd, "selfr.trace.ndjson"), [
+            ("re-open one ms early", change_first(lambda e: e["e"] == "open" and e["t"] > 100, lambda e: e.__setitem__("t", e["t"] - 1))),
+            ("reply byte changed", change_first(lambda e: e["e"] == "tx", lambda e: e["bytes"].__setitem__(3, e["bytes"][3] ^ 1))),
+            ("open attempt removed", drop_first(lambda e: e["e"] == "open" and e["t"] > 0))])
     except vf.ToolError as e:
         print("selftest tool error:", e)
         return 2
